@@ -38,6 +38,9 @@ def gen(cs, kinds_pool=("sec", "fi", "cp", "cp", "fi", "hedge", "cphedge"), nd=(
     cs_ = rs.rand(ndates, n) * 0.02
     nv_rows = list(range(0, ndates, rng.choice([1, 1, 2, 3])))
     nv = rs.choice([1e5, 2e5, 5e4], size=len(nv_rows)).tolist()
+    if len(nv) > 3 and rng.random() < 0.3:
+        for _ in range(rng.randint(1, 2)):
+            nv[rng.randint(1, len(nv) - 1)] = 0.0      # the book is wound down to nothing on that date
     hedged = [nm for nm, k in zip(names, kinds) if k in ("hedge", "cphedge")]
     target_names = [nm for nm, k in zip(names, kinds) if k not in ("hedge", "cphedge")]
     ws = dict(zip(target_names, [float(x) for x in rs.dirichlet(np.ones(len(target_names)))]))
@@ -96,9 +99,21 @@ def make(spec, extra_algos_front=(), extra_algos_back=()):
     return s, data, ex, kw
 
 
-def run_backtest(spec, extra_algos_front=(), extra_algos_back=()):
+def make_market_value(spec):
+    """the same mix of bond-like / hedge / ordinary securities under an ordinary (market-value) strategy"""
+    idx, data, ex = frames(spec)
+    sched = {"daily": algos.RunDaily(), "weekly": algos.RunWeekly(), "once": algos.RunOnce(), "everyn": algos.RunEveryNPeriods(3)}[spec["sched"]]
+    ws = {k: abs(v) * 0.9 for k, v in spec["weights"].items()}
+    st = [algos.run_always(HedgeTrader(spec["hedge_trades"], list(idx))), sched, algos.SelectThese(list(ws.keys())), algos.WeighSpecified(**ws), algos.Rebalance()]
+    s = bt.Strategy("mv", st, children=children(spec))
+    comm = ins.Comm(spec["comm"])
+    kw = dict(integer_positions=spec["integer"], commissions=(comm if spec["comm"] != "none" else None), additional_data={k: v for k, v in ex.items() if k != "nv"})
+    return s, data, ex, kw
+
+
+def run_backtest(spec, extra_algos_front=(), extra_algos_back=(), market_value=False):
     ins.install()
-    s, data, ex, kw = make(spec, extra_algos_front, extra_algos_back)
+    s, data, ex, kw = make_market_value(spec) if market_value else make(spec, extra_algos_front, extra_algos_back)
     r = w2.Run()
     r.spec = spec
     mark = len(ins.EV)
